@@ -6,6 +6,21 @@ import os
 HERE = os.path.dirname(os.path.dirname(os.path.abspath(__file__)))
 
 CLAIMS = {
+    "C15": dict(
+        text="Static sibling equivalence between library and simulator re-implementations (two live fragments of "
+             "the tree): neighbour-selection expressions equal after expanding the distance cache through "
+             "_calculate_distances_of_batch; the drivers compute distances for the rows they predict and share "
+             "them only under the same metric; on the abstract traces of all (policy x Radius/KNearest/LSHNearest) "
+             "configurations the per-row copy, seeding, fit operands and the sequence of generator draws up to the "
+             "reported result coincide; the six LSH method pairs are equal under renaming; the wrappers built by "
+             "_train_bandits hold the replaced implementor's constructor values and share rng, arms, lp; protocol "
+             "order of run / online batches. Decides structural equality, not reported numbers. Found and guards "
+             "the repaired cross-metric distance cache.",
+        note="Trusted: cdist is a pure function; joblib order. Expectations of randomised policies and the "
+             "statistics side products are outside the claim.",
+        technique="sibling normal-form comparison (alpha renaming, local inlining, declared renaming table) + "
+                  "comparison of abstract-interpretation traces of both implementations",
+        ref="DESIGN.md section 3, C15"),
     "C08": dict(
         text="Static completeness/ownership analysis: every arm-keyed dictionary of the abstract object graph "
              "(incl. nested, per-cluster and per-arm-model state, all 55 configurations) is shown to be updated on "
